@@ -502,6 +502,13 @@ func persistMain(args mon.Args) {
 				}
 				run.Distinct(fmt.Sprintf("roundtrip|%s|%d", proto, n))
 			}
+			// degenerate entries: a hand-edited or bit-flipped file in which templates describe nothing (all field
+			// lengths 0, no field specifiers, counts that disagree). Data for those keys must still come back -
+			// as records, as an error, as unknown - and decoding must RETURN: each edit is probed in a child
+			// process under a CPU limit, so that a decode that never ends is an observation, not a hung check
+			if n <= 12 {
+				degenerateEntries(run, proto, dir, cn, n, bc, valid, mk)
+			}
 			// absent file / directory instead of a file
 			for _, c := range []corruption{{"absent", "no such file", nil, true}} {
 				run.Eval(1)
@@ -717,7 +724,7 @@ func persistMain(args mon.Args) {
 	if args.Replay == "" {
 		crossProcessHistories(run, snap, "persist:xproc", run.Pick(60, 1000))
 	}
-	run.SetRule("caches built by decoding generated announcements (1..40 templates quick, ..2000 thorough; plain/options, IPv4/mapped/IPv6 exporters; ipfix and netflow v9). Faults enumerated: EVERY prefix length of the dump file (every crash point of truncate-then-write; stride above 64 KiB), real SIGKILLs of a process dumping in a loop, ~70 single structural edits of the valid document (shards dropped/null/wrong type, Templates null/[]/{}, Cache null/[]/31/33 entries, ShardNo absent/0/31/33/-1/'32'/2^40, entry-level edits, duplicated members, whole-document forms), absent file, seeded byte-level flips/inserts/deletes. Oracles per load: GetCache does not panic; the loaded cache re-dumped holds only entries equal to saved ones (prefix/structural faults); every saved key decodes as before or is unknown; announce+decode works on all 32 shards (64 probe keys, two per shard, chosen by harness-side FNV) and Dump works afterwards; the unmodified file round-trips every key; save histories on one file (larger→smaller, smaller→larger, equal, several steps) must load back as exactly the cache saved last; 60-1000 exporter histories are cut at 1-3 points and every part runs in a process of its own on the cache file its predecessor saved (a real restart), with records and unknown-template reports predicted as for an uninterrupted history. distinct = (kind, position/edit)")
+	run.SetRule("caches built by decoding generated announcements (1..40 templates quick, ..2000 thorough; plain/options, IPv4/mapped/IPv6 exporters; ipfix and netflow v9). Faults enumerated: EVERY prefix length of the dump file (every crash point of truncate-then-write; stride above 64 KiB), real SIGKILLs of a process dumping in a loop, ~70 single structural edits of the valid document (shards dropped/null/wrong type, Templates null/[]/{}, Cache null/[]/31/33 entries, ShardNo absent/0/31/33/-1/'32'/2^40, entry-level edits, duplicated members, whole-document forms), absent file, seeded byte-level flips/inserts/deletes. Oracles per load: GetCache does not panic; the loaded cache re-dumped holds only entries equal to saved ones (prefix/structural faults); every saved key decodes as before or is unknown; announce+decode works on all 32 shards (64 probe keys, two per shard, chosen by harness-side FNV) and Dump works afterwards; the unmodified file round-trips every key; save histories on one file (larger→smaller, smaller→larger, equal, several steps) must load back as exactly the cache saved last; 60-1000 exporter histories are cut at 1-3 points and every part runs in a process of its own on the cache file its predecessor saved (a real restart), with records and unknown-template reports predicted as for an uninterrupted history; 8 degenerate-entry edits applied to every entry (all lengths 0 or 65535, specifiers []/null/missing, counts 0/65535, empty template) are probed in a child process under a 10 s CPU limit: GetCache must not panic and decoding every key's data must return without a panic. distinct = (kind, position/edit)")
 	run.Assume("a byte flip inside a digit legitimately yields a different template: byte-level corruptions are judged for 'no crash, still usable' only")
 	run.Finish()
 }
@@ -754,3 +761,178 @@ func killChild(a mon.Args) {
 }
 
 var _ = sort.Strings
+
+// ---------------------------------------------------------------- degenerate template entries, probed in a child
+
+type probeKey struct {
+	Addr string `json:"addr"`
+	Data string `json:"data"`
+}
+
+type probeReq struct {
+	Proto string     `json:"proto"`
+	File  string     `json:"file"`
+	Keys  []probeKey `json:"keys"`
+}
+
+// persistProbeChild loads the file and decodes every key's data, under RLIMIT_CPU / RLIMIT_AS.
+func persistProbeChild(a mon.Args) {
+	syscall.Setrlimit(syscall.RLIMIT_CPU, &syscall.Rlimit{Cur: 10, Max: 12})
+	syscall.Setrlimit(syscall.RLIMIT_AS, &syscall.Rlimit{Cur: 2 << 30, Max: 2 << 30})
+	var req probeReq
+	b, err := os.ReadFile(a.Rest["req"])
+	if err != nil || json.Unmarshal(b, &req) != nil {
+		os.Exit(3)
+	}
+	var api *cacheAPI
+	func() {
+		defer func() {
+			if p := recover(); p != nil {
+				fmt.Printf("LOADPANIC %v\n", p)
+				os.Exit(0)
+			}
+		}()
+		api = newCacheAPI(req.Proto, req.File)
+	}()
+	for i, k := range req.Keys {
+		fmt.Printf("KEY %d\n", i)
+		recs, et, pn := decodeRecs(api, mon.UnHex(k.Addr), mon.UnHex(k.Data))
+		if pn != "" {
+			fmt.Printf("PANIC %d %s\n", i, pn)
+			continue
+		}
+		fmt.Printf("RESULT %d records=%d error=%q\n", i, len(recs), et)
+	}
+	fmt.Println("DONE")
+	os.Exit(0)
+}
+
+func degenerateEntries(run *mon.Run, proto, dir string, cn, n int, bc *builtCache, valid []byte, mk func(corruption) persistCase) {
+	self, err := os.Executable()
+	if err != nil {
+		run.HarnessError(err.Error())
+		return
+	}
+	tplOf := func(e interface{}) map[string]interface{} {
+		em, _ := e.(map[string]interface{})
+		t, _ := em["Template"].(map[string]interface{})
+		return t
+	}
+	setLens := func(t map[string]interface{}, member string, v string) {
+		fs, _ := t[member].([]interface{})
+		for _, f := range fs {
+			if fm, ok := f.(map[string]interface{}); ok {
+				fm["Length"] = json.Number(v)
+			}
+		}
+	}
+	edits := []struct {
+		detail string
+		f      func(t map[string]interface{})
+	}{
+		{"every field Length 0 in every entry", func(t map[string]interface{}) {
+			setLens(t, "FieldSpecifiers", "0")
+			setLens(t, "ScopeFieldSpecifiers", "0")
+		}},
+		{"FieldSpecifiers and ScopeFieldSpecifiers [] in every entry", func(t map[string]interface{}) {
+			t["FieldSpecifiers"], t["ScopeFieldSpecifiers"] = []interface{}{}, []interface{}{}
+		}},
+		{"FieldSpecifiers and ScopeFieldSpecifiers null in every entry", func(t map[string]interface{}) {
+			t["FieldSpecifiers"], t["ScopeFieldSpecifiers"] = nil, nil
+		}},
+		{"FieldSpecifiers and ScopeFieldSpecifiers members removed from every entry", func(t map[string]interface{}) {
+			delete(t, "FieldSpecifiers")
+			delete(t, "ScopeFieldSpecifiers")
+		}},
+		{"FieldCount and ScopeFieldCount 0 in every entry", func(t map[string]interface{}) {
+			t["FieldCount"], t["ScopeFieldCount"] = json.Number("0"), json.Number("0")
+		}},
+		{"FieldCount 65535 in every entry", func(t map[string]interface{}) { t["FieldCount"] = json.Number("65535") }},
+		{"every field Length 65535 in every entry", func(t map[string]interface{}) { setLens(t, "FieldSpecifiers", "65535") }},
+		{"Template {} in every entry", func(t map[string]interface{}) {
+			for k := range t {
+				delete(t, k)
+			}
+		}},
+	}
+	for ei, ed := range edits {
+		var doc map[string]interface{}
+		dec := json.NewDecoder(bytes.NewReader(valid))
+		dec.UseNumber()
+		if dec.Decode(&doc) != nil {
+			run.HarnessError("the valid cache file does not parse")
+			return
+		}
+		c, _ := doc["Cache"].([]interface{})
+		for _, sh := range c {
+			m, _ := sh.(map[string]interface{})
+			ts, _ := m["Templates"].(map[string]interface{})
+			for _, e := range ts {
+				if t := tplOf(e); t != nil {
+					ed.f(t)
+				}
+			}
+		}
+		content, _ := json.Marshal(doc)
+		base := filepath.Join(dir, fmt.Sprintf("degenerate-%d-%d", cn, ei))
+		os.WriteFile(base+".json", content, 0o644)
+		req := probeReq{Proto: proto, File: base + ".json"}
+		for _, k := range bc.keys {
+			req.Keys = append(req.Keys, probeKey{mon.Hex(k.Addr), mon.Hex(k.Data)})
+		}
+		rb, _ := json.Marshal(req)
+		os.WriteFile(base+".req", rb, 0o644)
+		cmd := exec.Command(self, "--prop", "C11", "--persist-probe-child", "1", "--req", base+".req")
+		cmd.SysProcAttr = &syscall.SysProcAttr{Pdeathsig: syscall.SIGKILL}
+		var out bytes.Buffer
+		cmd.Stdout, cmd.Stderr = &out, &out
+		run.Eval(1)
+		run.Distinct(fmt.Sprintf("degenerate|%s|%d|%d", proto, n, ei))
+		run.Add("degenerate_entry_files_probed_in_a_child", 1)
+		done := make(chan error, 1)
+		if err := cmd.Start(); err != nil {
+			run.HarnessError(err.Error())
+			return
+		}
+		go func() { done <- cmd.Wait() }()
+		var werr error
+		select {
+		case werr = <-done:
+		case <-time.After(3 * time.Minute):
+			cmd.Process.Kill()
+			<-done
+			run.Inconclusive(fmt.Sprintf("degenerate entries (%s, %s): the probing child hit the wall-clock guard", proto, ed.detail))
+			continue
+		}
+		txt := out.String()
+		pc := mk(corruption{"degenerate", ed.detail, content, false})
+		lastKey := "none"
+		for _, l := range strings.Split(txt, "\n") {
+			if strings.HasPrefix(l, "KEY ") {
+				lastKey = strings.TrimPrefix(l, "KEY ")
+			}
+		}
+		switch {
+		case strings.Contains(txt, "LOADPANIC"):
+			run.Violation("persist:load-panic", ed.detail+": GetCache panicked: "+clip(txt, 300), pc)
+		case werr != nil || !strings.Contains(txt, "DONE"):
+			why := fmt.Sprint(werr)
+			if strings.Contains(why, "CPU time limit") || strings.Contains(why, "killed") {
+				why += " (10 s of CPU were not enough: the decode does not return)"
+			}
+			run.Violation("persist:decode-after-load-does-not-return", fmt.Sprintf("%s: GetCache accepted the file, and decoding the data of key %s (a %d-octet datagram) against the loaded cache ended the process: %s; %s", ed.detail, lastKey, len(bc.keys[0].Data), why, clip(lastLines(txt, 6), 500)), pc)
+		case strings.Contains(txt, "PANIC "):
+			run.Violation("persist:unusable-panic:decode", ed.detail+": decoding against the loaded cache panicked: "+clip(txt[strings.Index(txt, "PANIC "):], 300), pc)
+		}
+		os.Remove(base + ".json")
+		os.Remove(base + ".req")
+	}
+}
+
+func lastLines(s string, n int) string {
+	l := strings.Split(strings.TrimSpace(s), "\n")
+	if len(l) > n {
+		l = l[len(l)-n:]
+	}
+	return strings.Join(l, " | ")
+}
